@@ -150,6 +150,9 @@ func mergeRefs(ab *cmdsPair, a, b *cmd) {
 			}
 		} else if _, found := ab.a.lookup[prefix][bName]; found && ab.b.isRaw {
 			errlog.Abort("Name clash for '%s %s' from raw", prefix, bName)
+		} else if ab.b.isRaw && isReferenced[refCmd] {
+			errlog.Abort("Must reference '%s %s' only once in raw",
+				prefix, bName)
 		}
 		isReferenced[refCmd] = true
 		refPair := *ab
